@@ -20,7 +20,8 @@ ROOT = os.path.dirname(os.path.abspath(__file__))
 HARNESS = os.path.join(ROOT, "harness")
 TARGET = os.path.join(ROOT, "target")
 OUT = os.path.join(ROOT, "out")
-EVIDENCE = os.path.join(ROOT, "evidence")
+# runs against deliberately broken trees (tools/seed.py, selftest) redirect their evidence away from the committed files
+EVIDENCE = os.environ.get("VERIF_EVIDENCE_DIR") or os.path.join(ROOT, "evidence")
 KNOWN = os.path.join(ROOT, "KNOWN_FINDINGS.txt")
 NCPU = os.cpu_count() or 4
 
